@@ -10,6 +10,7 @@ import (
 	"errors"
 	"io"
 	"net"
+	"net/netip"
 	"os"
 	"regexp"
 	"runtime"
@@ -247,6 +248,24 @@ func (c *fakeSharedSocket) WriteTo(b []byte, a net.Addr) (int, error) {
 	}
 	c.sent = append(c.sent, sentRec{append([]byte{}, b...), a.String()})
 	return len(b), nil
+}
+
+// fakeAddrPortSocket is the same socket offering the netip.AddrPort flavour of the calls as well (as a *net.UDPConn does): the
+// mux then reads through ReadFromAddrPort and hands out handles that have WriteToAddrPort / ReadFromAddrPort.
+type fakeAddrPortSocket struct{ *fakeSharedSocket }
+
+func (c fakeAddrPortSocket) ReadFromAddrPort(b []byte) (int, netip.AddrPort, error) {
+	n, a, err := c.fakeSharedSocket.ReadFrom(b)
+	if err != nil {
+		return n, netip.AddrPort{}, err
+	}
+	ua, _ := a.(*net.UDPAddr)
+
+	return n, ua.AddrPort(), nil
+}
+
+func (c fakeAddrPortSocket) WriteToAddrPort(b []byte, addr netip.AddrPort) (int, error) {
+	return c.fakeSharedSocket.WriteTo(b, net.UDPAddrFromAddrPort(addr))
 }
 
 func (c *fakeSharedSocket) Close() error                    { c.once.Do(func() { close(c.closed) }); return nil }
